@@ -19,9 +19,11 @@ ID = "C16"
 RULE = (
     "Hypothesis draws a 2-d or 3-d grid (Cartesian / tensor with random spacings / structured triangles and "
     "tetrahedra / mixed polygons incl. hexagons with hanging nodes and their extrusion; perturbed up to 0.15 h, "
-    "3-d affine maps and rotations; gmsh simplices in the thorough tier; 2-d grids in the xy-plane), constant "
-    "Lame parameters mu in [0.5,3], lambda in [0.1,3], a translation vector t (components in [-3,3], also unit "
-    "axis vectors) and a boundary assignment: all Dirichlet, per-face Dirichlet/Neumann mix (pattern), as few "
+    "3-d affine maps and rotations; gmsh simplices in the thorough tier; 2-d grids in the xy-plane; one grid in four "
+    "multiplied by a unit factor 1e-6..1e4, one tensor grid in two graded with spacings down to 1e-3 of their "
+    "neighbours), constant Lame parameters mu in [0.5,3], lambda in [0.1,3] (one case in four times a modulus scale "
+    "1e-6..1e12), a translation vector t (components in [-3,3], also unit axis vectors; one in three times a "
+    "magnitude 1e-6..1e6) and a boundary assignment: all Dirichlet, per-face Dirichlet/Neumann mix (pattern), as few "
     "Dirichlet faces as possible, or component-wise mixed (roller) faces with Dirichlet in some components and "
     "Neumann in the others; data t_k in Dirichlet components and zero traction in Neumann components. In two "
     "thirds of the cases the discretisation asserted on is a RE-discretisation: a first discretisation with other "
@@ -34,8 +36,9 @@ RULE = (
     "Dirichlet and interior faces count as holding; no "
     "rigid-body / hinge mode). Oracle: stress t + bound_stress bc = 0 on every face (1e-9 of the summed terms); "
     "(t,0,0) has residual <= 1e-9 of the summed terms in the block system A = div F - accum, b = -div R bc "
-    "assembled as in the Tpsa class docstring; the system is solved (sparse LU) and must return displacement t "
-    "in every cell, rotation 0 and solid pressure 0 to max(1e-9, 10 eps cond_1(A)) |t|; a numerically singular "
+    "assembled as in the Tpsa class docstring; the system, equilibrated with the problem's own scales (rows by mu h^(d-2) resp. h^(d-1), rotation and "
+    "pressure unknowns by mu/h, h = cell size), is solved (sparse LU) and must return displacement t in every "
+    "cell, rotation 0 and solid pressure 0 to max(1e-9, 10 eps cond_1) |t| in those units; no absolute tolerance; a numerically singular "
     "system (cond_1 >= 1e10) is a violation when all faces are Dirichlet and is skipped and counted otherwise "
     "(>= 95 % of cases must be solved). "
     "Non-trivial = >= 2 cells and t != 0 and (Neumann face present or grid not an unperturbed Cartesian one); "
@@ -59,7 +62,8 @@ ASSUMPTIONS = [
     "Neumann data consistent with the translation: zero traction",
 ]
 REQUIRED = {"solved": 0.95, "dim2": 0.2, "dim3": 0.2, "neumann-present": 0.3, "bc-all_dir": 0.05, "bc-mix": 0.12,
-            "bc-roller": 0.1, "roller-present": 0.06, "reuse-none": 0.1, "reuse-bc-edited": 0.15,
+            "bc-roller": 0.1, "roller-present": 0.06,
+            "scaled-small": 0.03, "scaled-large": 0.02, "stiff": 0.04, "soft": 0.02, "graded": 0.01, "data-scaled": 0.08, "reuse-none": 0.1, "reuse-bc-edited": 0.15,
             "reuse-geometry-edited": 0.05, "reuse-stiffness-edited": 0.05, "reuse-back": 0.08, "reuse-forward": 0.08,
             "reuse-same-discr": 0.08, "reuse-new-discr": 0.08, "reuse-same-data": 0.08, "reuse-new-data": 0.08,
             "kind-tri": 0.02, "kind-tet": 0.01, "kind-poly": 0.02, "kind-polyx": 0.02, "perturbed": 0.05}
@@ -77,12 +81,14 @@ _BC_MODES = ("mix", "mix", "roller", "roller", "all_dir", "few_dir")
 def _spec(draw, tier):
     thorough = tier == "thorough"
     g = draw(fm.mech_grid_spec(poly=True, max_amp=0.15, max_n=6 if thorough else 4, max_n3=3 if thorough else 2,
-                               gmsh=thorough))
+                               gmsh=thorough, min_grade=1e-3))
     if draw(st.integers(0, 3)) == 0:
         t = draw(st.sampled_from([[1.0, 0.0, 0.0], [0.0, 1.0, 0.0], [0.0, 0.0, 1.0], [1.0, -2.0, 3.0]]))
     else:
-        t = [draw(_f(-3, 3)) for _ in range(3)]
-    return {"grid": g, "lame": draw(fm.lame_spec()), "bc": draw(fm.vbc_spec(modes=_BC_MODES)), "t": t,
+        t = [draw(fm._d(-3, 3)) for _ in range(3)]
+    d = fm.data_scale(draw)  # magnitude of the translation (displacement units)
+    t = [v * d for v in t]
+    return {"grid": g, "lame": draw(fm.lame_spec()), "bc": draw(fm.vbc_spec(modes=_BC_MODES)), "t": t, "tscale": d,
             "reuse": draw(fm.reuse_spec(_BC_MODES))}
 
 
@@ -96,6 +102,7 @@ def warmup():
 
 # ----------------------------------------------------------------------------- check
 def check(spec):
+    import scipy.sparse as sps
     import scipy.sparse.linalg as spla
 
     g = build_grid(spec["grid"])
@@ -126,7 +133,7 @@ def check(spec):
     stress, bstress = M["stress"], M["bound_stress"]
     got = stress @ u + bstress @ bv
     sc = float((fm.abs_apply(stress, u) + fm.abs_apply(bstress, bv)).max())
-    require_close(got, np.zeros_like(got), "translation-zero-stress", rtol=1e-9, atol=1e-13, scale=sc,
+    require_close(got, np.zeros_like(got), "translation-zero-stress", rtol=1e-9, atol=0.0, scale=sc,
                   what="stress t + bound_stress bc")
 
     # full block system
@@ -137,15 +144,26 @@ def check(spec):
     require(A.shape == (x_exact.size, x_exact.size), "system-shape", f"{A.shape} vs {x_exact.size}")
     res = A @ x_exact - b
     scr = float((fm.abs_apply(A, x_exact) + fm.abs_apply(B, bv)).max())
-    require_close(res, np.zeros_like(res), "translation-residual", rtol=1e-9, atol=1e-13, scale=scr,
+    require_close(res, np.zeros_like(res), "translation-residual", rtol=1e-9, atol=0.0, scale=scr,
                   what="residual of (t, 0, 0) in the assembled TPSA system")
     n_neu = int(is_neu.sum())  # number of Neumann degrees of freedom
+    # The blocks of the system carry different units (momentum rows ~ mu h^(d-2) u, rotation / mass rows ~ h^(d-1) u;
+    # rotation and solid pressure ~ mu u / h), so it is equilibrated with the problem's own scales before it is
+    # solved: A~ = Dr A Dc, x = Dc y.  h = cell size V^(1/d) (cell-wise), mu = shear modulus.  cond_1(A~) is then independent of the
+    # units of length and stiffness, and the three solution blocks are compared in their own units.
+    h = g.cell_volumes ** (1.0 / nd)  # cell-wise size
+    mu = float(lame["mu"])
+    n_u, n_r = nd * nc, rot_dim * nc
+    dc = np.concatenate([np.ones(n_u), np.repeat(mu / h, rot_dim), mu / h])
+    dr = np.concatenate([np.repeat(1.0 / (mu * h ** (nd - 2)), nd), np.repeat(1.0 / h ** (nd - 1), rot_dim),
+                         1.0 / h ** (nd - 1)])
+    As = (sps.diags(dr) @ A @ sps.diags(dc)).tocsc()
     solved = True
     try:
-        lu = spla.splu(A)
-        x = lu.solve(b)
-        inv1 = float(np.abs(lu.solve(np.eye(A.shape[0]))).sum(axis=0).max())
-        kappa = float(abs(A).sum(axis=0).max()) * inv1  # 1-norm condition number (exact)
+        lu = spla.splu(As)
+        y = lu.solve(dr * b)
+        inv1 = float(np.abs(lu.solve(np.eye(As.shape[0]))).sum(axis=0).max())
+        kappa = float(abs(As).sum(axis=0).max()) * inv1  # 1-norm condition number (exact) of the scaled system
     except RuntimeError:  # scipy: "Factor is exactly singular"
         kappa = float("inf")
     if not (np.isfinite(kappa) and kappa < KAPPA_SINGULAR):
@@ -154,22 +172,23 @@ def check(spec):
         # although the continuous problem is well posed (method limitation): the generator avoids the
         # known configurations; what is left is counted ("unsolvable-skipped", capped by REQUIRED).
         require(n_neu > 0, "system-singular",
-                f"all-Dirichlet TPSA block system has 1-norm condition number {kappa:.3e}")
+                f"all-Dirichlet TPSA block system (equilibrated) has 1-norm condition number {kappa:.3e}")
         solved = False
     if solved:
-        require(bool(np.all(np.isfinite(x))), "solve-finite", "non-finite solution")
-        # forward error of a backward-stable solve is O(kappa eps |x|): 1e-9 as long as kappa <= ~5e5
+        require(bool(np.all(np.isfinite(y))), "solve-finite", "non-finite solution")
+        # forward error of a backward-stable solve is O(kappa eps |y|): 1e-9 as long as kappa <= ~5e5
         rtol = max(1e-9, 10.0 * np.finfo(float).eps * kappa)
         tn = float(np.abs(t).max())
-        require_close(x[: nd * nc], u, "solution-displacement", rtol=rtol, atol=1e-13, scale=tn,
+        require_close(y[:n_u], u, "solution-displacement", rtol=rtol, atol=0.0, scale=tn,
                       what="cell displacement vs translation")
-        require_close(x[nd * nc: (nd + rot_dim) * nc], np.zeros(rot_dim * nc), "solution-rotation", rtol=rtol,
-                      atol=1e-13, scale=tn, what="cell rotation vs 0")
-        require_close(x[(nd + rot_dim) * nc:], np.zeros(nc), "solution-solid-pressure", rtol=rtol, atol=1e-13,
-                      scale=tn, what="solid pressure vs 0")
+        require_close(y[n_u: n_u + n_r], np.zeros(n_r), "solution-rotation", rtol=rtol,
+                      atol=0.0, scale=tn, what="cell rotation (in units of mu/h) vs 0")
+        require_close(y[n_u + n_r:], np.zeros(nc), "solution-solid-pressure", rtol=rtol, atol=0.0,
+                      scale=tn, what="solid pressure (in units of mu/h) vs 0")
 
     meta = grid_meta(spec["grid"])
     labels = list(meta["labels"]) + ["bc-" + spec["bc"]["mode"]] + fm.reuse_labels(reuse)
+    labels += fm.scale_labels(spec["grid"], lame, spec.get("tscale", 1.0))
     labels.append("solved" if solved else "unsolvable-skipped")
     if n_neu:
         labels.append("neumann-present")
